@@ -63,6 +63,8 @@ def payload(mode: str, k: int, n: int):
         return bytes([65 + k]) * n
     if mode == 'txt':
         return chr(65 + k) * n
+    if mode == 'txtw':                 # txt with 2-byte UTF-8 letters: sizes on disk are counted in bytes, not characters
+        return chr(0x410 + k) * n
 
     return int(str(k + 1) * n)  # json: an n-digit integer
 
@@ -74,6 +76,8 @@ def raw(mode: str, k: int, n: int) -> bytes:
         return bytes([65 + k]) * n
     if mode in ('binl', 'txt'):
         return bytes([65 + k]) * n + b'\n'
+    if mode == 'txtw':
+        return (chr(0x410 + k) * n).encode() + b'\n'
 
     return (str(k + 1) * n).encode() + b'\n'
 
@@ -129,11 +133,11 @@ def parse(mode: str, out, sizes: list):
 
             r = runs(it, 65)
 
-        elif mode == 'txt':
+        elif mode in ('txt', 'txtw'):
             if not isinstance(it, str) or not it:
                 return f'txt read returned {it!r}'
 
-            r = runs(it, 65)
+            r = runs(it, 65 if mode == 'txt' else 0x410)
 
         else:
             if not isinstance(it, int) or isinstance(it, bool) or it <= 0:
